@@ -1,5 +1,6 @@
 """Shared pieces for units that mention evaluator values and errors."""
 import os
+import re
 import sys
 
 ROOT = os.path.dirname(os.path.dirname(os.path.abspath(__file__)))
@@ -168,11 +169,19 @@ AST_OPAQUE_ASSUMPTIONS = {
 AST_TYPE_RULES = [rw.simple("T1", r"OrderedFloat<f64>", "OrderedF64")]
 
 
-def add_ast_types(u, with_env_opaque=True):
+def _without(text, names):
+    for n in names:
+        text = re.sub(r"#\[verifier::external_body\] pub struct %s \{ _o: u8 \}\n" % n, "", text)
+    return text
+
+
+def add_ast_types(u, with_env_opaque=True, real=()):
     """Expression, Expression_, Block, BinaryOperatorKind/Symbol, AssignUpdateKind verbatim
     (parser/ast.rs); the other AST types they mention are opaque stand-ins."""
     A = "src/parser/ast.rs"
-    u.raw(AST_OPAQUE, kind="prelude")
+    u.raw(_without(AST_OPAQUE, real), kind="prelude")
+    for n in real:
+        u.add_type(A, n)
     u.add_type(A, "BinaryOperatorKind")
     u.add_type(A, "BinaryOperatorSymbol")
     u.add_type(A, "AssignUpdateKind")
@@ -210,7 +219,7 @@ ENV_OPAQUE_NOAST = """
 """
 
 
-def add_env_full(u, real_typename=False, typehint_stub=False):
+def add_env_full(u, real_typename=False, typehint_stub=False, real_ast=(), no_syntaxid=False):
     """The evaluator's state types verbatim: BlockState, ExpressionState, Bindings (eval.rs),
     StackFrame, Stack, Env (env.rs), with the AST (add_ast_types) and opaque stand-ins for
     every field type these functions do not look into."""
@@ -219,13 +228,13 @@ def add_env_full(u, real_typename=False, typehint_stub=False):
         u.raw(ENV_OPAQUE_NOAST.replace("#[verifier::external_body] pub struct TypeHint { _o: u8 }",
                                        "#[verifier::external_body] pub struct TypeHintRest { _o: u8 }\npub struct TypeHint { pub position: Position, pub rest: TypeHintRest }"), kind="prelude")
     else:
-        u.raw(ENV_OPAQUE_NOAST, kind="prelude")
+        u.raw(_without(ENV_OPAQUE_NOAST, ["SyntaxId"] if no_syntaxid else []), kind="prelude")
     if real_typename:
         u.raw(ENV_STRUCT_OPAQUE.replace("#[verifier::external_body] pub struct TypeName { _o: u8 }\n", ""), kind="prelude")
         u.add_type("src/parser/ast.rs", "TypeName")
     else:
         u.raw(ENV_STRUCT_OPAQUE, kind="prelude")
-    add_ast_types(u)
+    add_ast_types(u, real=real_ast)
     u.add_type("src/eval.rs", "BlockState")
     u.add_type("src/eval.rs", "ExpressionState")
     u.add_type("src/eval.rs", "Bindings")
@@ -276,6 +285,7 @@ def add_env_accessors(u, props, props_safety=None):
     u.add_fn(ENV, "pop_value", impl="Env", contract=Contract(
         requires=[("nonempty", "old(self).stack.0@.len() >= 1")],
         ensures=[("popped", "r is Some <==> top(*old(self)).evalled_values@.len() > 0"),
+                 ("is_last", "r is Some ==> r->Some_0 == top(*old(self)).evalled_values@.last()"),
                  ("rest_values", "top(*final(self)).evalled_values@ == (if top(*old(self)).evalled_values@.len() > 0 { top(*old(self)).evalled_values@.drop_last() } else { top(*old(self)).evalled_values@ })"),
                  ("same_blocks", "top(*final(self)) == (StackFrame { evalled_values: top(*final(self)).evalled_values, ..top(*old(self)) })"),
                  ("others", rest), ("env_rest", ENVREST)], props=props))
